@@ -17,6 +17,12 @@ def Color.fwd : Color → Int | .white => 1 | .black => -1
 inductive Kind | pawn | knight | bishop | rook | queen | king
 deriving DecidableEq, Repr, Inhabited
 
+/-- a move counter one higher — counters are 64-bit unsigned numbers (what a FEN reader on a 64-bit machine can hold),
+so the increment stops at `2^64 - 1`; below that it is exactly `+ 1` (`clockSucc_exact`) -/
+def clockSucc (n : Nat) : Nat := if n + 1 < 2^64 then n + 1 else n
+
+theorem clockSucc_exact {n : Nat} (h : n + 1 < 2^64) : clockSucc n = n + 1 := by unfold clockSucc; rw [if_pos h]
+
 structure Pos where
   cells : Array (Option (Color × Kind))      -- 64 cells, a1 = 0 … h8 = 63
   turn : Color
@@ -168,8 +174,8 @@ def applyMove (p : Pos) (m : SMove) : Pos :=
     bk := p.bk && !kingMoved .black && !touches 63
     bq := p.bq && !kingMoved .black && !touches 56
     ep := if m.dbl then some ((m.src + m.dst) / 2) else none
-    halfmove := if m.kind == .pawn || m.capture.isSome then 0 else p.halfmove + 1
-    fullmove := if c == .black then p.fullmove + 1 else p.fullmove }
+    halfmove := if m.kind == .pawn || m.capture.isSome then 0 else clockSucc p.halfmove
+    fullmove := if c == .black then clockSucc p.fullmove else p.fullmove }
 
 /-- legal = pseudo-legal and the mover's king is not attacked afterwards -/
 def isLegalAfter (p : Pos) (m : SMove) : Bool := !(applyMove p m).inCheck p.turn
